@@ -440,4 +440,4 @@ def r02j9(F):
 		out.append(Result('02.J', False, 'anchor:accumulate', 'monitor_updating_paused: accumulate clauses of 09.j not found'))
 	return out
 RULES.append(('02.J', 'a forward / fail-back held while a monitor update is in flight survives a second pause (09.j under C02)', r02j9))
-RULES.append(('02.N', 'arithmetic census: per reviewed function the number of operations per (group: add/sub, mul, div, rem, shift, bit, min, max, div_ceil ...; flavour: plain / checked / saturating / wrapping) is unchanged - a dropped or added `+ 1`, a rounding direction, saturating for checked, min for max (rules/arith.py; value arithmetic itself is not decided)', lambda F: arith.for_property(F, 'C02', '02.N')))
+RULES.append(('02.N', 'arithmetic census: per reviewed function the set of operation kinds (group: add/sub, mul, div, rem, shift, bit, min, max, div_ceil ...; flavour: plain / checked / saturating / wrapping) keeps its kinds: no reviewed function lost or gained a kind of arithmetic altogether - a rounding direction (`/` for div_ceil), saturating for checked, min for max (rules/arith.py; counts and value arithmetic itself are not judged)', lambda F: arith.for_property(F, 'C02', '02.N')))
